@@ -139,18 +139,18 @@ class Upset:
 
 
 def interrupting_local():
-    """Local whose first has_dead_threads evaluation is hit by a KeyboardInterrupt (a ^C in the wait loop)"""
+    """Local whose first poll of the process is hit by a KeyboardInterrupt (a ^C in the wait loop)"""
     from invoke.runners import Local
 
     class L(Local):
         fired = False
 
         @property
-        def has_dead_threads(self):
+        def process_is_finished(self):
             if not self.fired:
                 self.fired = True
                 raise KeyboardInterrupt
-            return Local.has_dead_threads.fget(self)
+            return Local.process_is_finished.fget(self)
     return L
 
 
@@ -366,17 +366,11 @@ def real_findings(tier, budget):
         fired = False
 
         @property
-        def has_dead_threads(self):
-            if not self.fired and getattr(self, "_reaped", False):
-                self.fired = True
-                raise KeyboardInterrupt
-            return Local.has_dead_threads.fget(self)
-
-        @property
         def process_is_finished(self):
             v = Local.process_is_finished.fget(self)
-            if v:
-                self._reaped = True
+            if v and not self.fired:
+                self.fired = True               # the child has just been reaped by this poll
+                raise KeyboardInterrupt
             return v
     for pty in (False, True):
         evals += 1
